@@ -279,6 +279,25 @@ pub fn wrapper_menu(full: bool) -> Vec<Wrapper> {
             build: Arc::new(move |s| zip_wrap(8, &field(65535, 5), &field(65535, 6), &s.stream, &s.plain)),
         });
     }
+    // header field lengths at the boundaries of 8 / 16 bit counters, one field at a time (both tiers)
+    for (what, n) in [("fname", 254usize), ("fname", 255), ("fname", 256), ("fname", 1024), ("fname", 70_000), ("fcomment", 255), ("fcomment", 256), ("fcomment", 4096), ("fextra", 255), ("fextra", 256), ("fextra", 32768)] {
+        let o = GzOpts {
+            extra: if what == "fextra" { Some(field(n, 7)) } else { None },
+            name: if what == "fname" { Some(field(n, 8)) } else { None },
+            comment: if what == "fcomment" { Some(field(n, 9)) } else { None },
+            method: 8,
+            ..Default::default()
+        };
+        v.push(Wrapper { kind: WKind::Gzip, descr: format!("gzip {} of {} bytes", what, n), supported: true, build: Arc::new(move |s| gzip_wrap(&o, &s.stream, &s.plain)) });
+    }
+    for (nl, el) in [(255usize, 0usize), (256, 0), (0, 255), (0, 256), (32767, 32768), (32768, 32768), (65535, 1), (1, 65535), (40000, 30000)] {
+        v.push(Wrapper {
+            kind: WKind::Zip,
+            descr: format!("zip method 8 name {} extra {}", nl, el),
+            supported: true,
+            build: Arc::new(move |s| zip_wrap(8, &field(nl, 5), &field(el, 6), &s.stream, &s.plain)),
+        });
+    }
     // PNG chunkings
     let mut splits: Vec<(String, Vec<usize>)> = vec![
         ("one chunk".into(), vec![]),
